@@ -203,6 +203,26 @@ def rule_rebase(ctx):
             a_raw = [s for s in ss if isinstance(s, ast.Assign) and U.is_self_attr(s.targets[0], fld_raw)]
             ok = ok or (len(a_conv) == 1 and len(a_raw) == 1 and isinstance(a_conv[0].value, ast.Call) and
                         U.is_self_attr(a_conv[0].value.func, conv) and norm(a_conv[0].value.args[0]) == norm(a_raw[0].value))
+        # ... and that x is the clock's *current* position: read through the map at the caller's time (self.beats, a seconds read
+        # converted), on every branch; the scheduler's cached self._beats is the beat of the last wake-up and is not refreshed by the
+        # beats setter, so pivoting on it makes the pair jump after `clock.beats = x; clock.tempo = t`
+        cached = []
+        for conv_, fld_conv_, fld_raw_ in pairs:
+            for a in [x for x in walk_local(f.node) if isinstance(x, ast.Assign) and U.is_self_attr(x.targets[0], fld_raw_)]:
+                srcs = [a.value]
+                seen_n = set()
+                while srcs:
+                    e = srcs.pop()
+                    for n_ in ast.walk(e):
+                        if isinstance(n_, ast.Attribute) and U.is_self_attr(n_) and n_.attr in ('_beats', '_seconds') and isinstance(n_.ctx, ast.Load):
+                            cached.append(f'self.{n_.attr}')
+                        if isinstance(n_, ast.Name) and n_.id not in seen_n:
+                            seen_n.add(n_.id)
+                            srcs += [x.value for x in walk_local(f.node) if isinstance(x, ast.Assign) and any(
+                                isinstance(t, ast.Name) and t.id == n_.id for t in x.targets)]
+        ctx.ob('C12.rebase', f'{f0.fq}:pivot-is-current-position', not cached,
+               f'the new base point is taken from {sorted(set(cached))}, the scheduler\'s cache of the last wake-up, instead of the position '
+               f'read through the map now', f.node, mod)
         conv, fld_conv, fld_raw = pairs[0]
         ctx.ob('C12.rebase', f'{f0.fq}:base-point-on-old-map', ok,
                f'{fld_conv} must be {conv}(x) of the same x stored in {fld_raw} (continuity of the beat/second pair)', f.node, mod)
@@ -337,6 +357,8 @@ def run(ctx):
 
 
 MUTANTS = [
+    dict(rule='C12.rebase', name='tempo setter pivots on the cached beat of the last wake-up (seed C12-f)', file='sc3/base/clock.py',
+         old="        # TempoClock::SetTempoAtBeat\n        beats = self.beats\n", new="        # TempoClock::SetTempoAtBeat\n        beats = self._beats if _libsc3.main.current_tt._clock is self else self.beats\n"),
     dict(rule='C12.rebase', name='meter setter moves the base bar beat before computing the base bar', file='sc3/base/clock.py',
          old="        self._base_bar = bi.round(\n            (beats - self._base_bar_beat) *\n            self._bars_per_beat + self._base_bar, 1)\n        self._base_bar_beat = beats\n",
          new="        self._base_bar_beat = beats\n        self._base_bar = bi.round(\n            (beats - self._base_bar_beat) *\n            self._bars_per_beat + self._base_bar, 1)\n"),
